@@ -922,7 +922,8 @@ int32 matrixSslGetReadbufOfSize(ssl_t *ssl, int32 size, unsigned char **buf)
         if ((p = psRealloc(ssl->inbuf, ssl->inlen + size, ssl->bufferPool))
             == NULL)
         {
-            ssl->inbuf = NULL; ssl->insize = 0; ssl->inlen = 0;
+            /* A failed realloc leaves the old buffer, and the data
+               received so far, in place: keep both */
             return PS_MEM_FAIL;
         }
         ssl->inbuf = p;
